@@ -17,7 +17,7 @@ import tempfile
 import time
 import traceback
 
-from . import assemble, verus, kani, findings
+from . import assemble, verus, kani, findings, native
 from .assemble import Undecided
 
 ROOT = os.path.dirname(os.path.dirname(os.path.abspath(__file__)))
@@ -46,7 +46,7 @@ def unit_props(unit):
     for it in unit['items'].values():
         for p in it.get('props', []):
             ps.add(p)
-    for h in unit.get('kani', {}).get('harnesses', []):
+    for h in unit.get('kani', {}).get('harnesses', []) + unit.get('native', {}).get('tests', []):
         for p in h.get('props', []):
             ps.add(p)
     return ps
@@ -295,6 +295,7 @@ def decide(prop, tier, seed, keep=None):
         # Kani leaves (complete / bounded), sequential: one cargo build shared by all harnesses
         kres = kani.run_for_property(prop, {n: pu for n, pu in mine.items()}, tier, work)
         results.extend(kres)
+        results.extend(native.run_units_native(mine, tier, work, only_props=[prop], tag=prop))
         # escalation: a Verus unit that ended undecided (anchor lost, construct Verus cannot read, resource limit)
         # falls back on its bounded Kani second opinions (thorough-tier harnesses on the REAL function): a failing
         # harness is a violation with the verifier's concrete counterexample; a passing one leaves the unit undecided
@@ -359,13 +360,17 @@ def report(prop, pinfo, tier, seed, results, fl, wall):
     for r in results:
         for s in r.get('stale_deviations', []):
             stale.append(s)
-    discharged = sum(1 for o in obligations if o['status'] == 'discharged')
+    bounded = [o for o in obligations if o.get('kind') == 'bounded']
+    proofobs = [o for o in obligations if o.get('kind') != 'bounded']
+    discharged = sum(1 for o in proofobs if o['status'] == 'discharged')
     level = pinfo['category']
     ev = {
         'property_id': prop, 'tier': tier, 'seed': seed, 'level': level,
         'coverage': {
-            'obligations': len(obligations),
-            'discharged': discharged + len(known),
+            'obligations': len(proofobs),
+            'discharged': discharged + sum(1 for o, _ in known if o.get('kind') != 'bounded'),
+            'bounded_checks': [{k: o[k] for k in ('id', 'backend', 'status', 'time_s', 'bound') if k in o} for o in bounded],
+            'bounded_note': 'bounded stand-ins (Kani with an unwinding bound / native exhaustive-small tests) are listed here and are NOT counted among obligations/discharged',
             'checker_cmd': ' ; '.join(sorted(set(cmds)))[:4000] or 'none',
             'trusted_base': sorted(set(trusted)) + pinfo.get('trusted_base', []),
             'explanation': pinfo.get('explanation', ''),
@@ -404,8 +409,9 @@ def report(prop, pinfo, tier, seed, results, fl, wall):
         tail = '' if (extra and extra.get('failing_input')) else ' no-failing-input-found'
         print('VIOLATION property=%s replay=%s obligation=%s%s' % (prop, path, ob['id'], tail))
         rc = 1
-    print('%s tier=%s obligations=%d discharged=%d known=%d violations=%d undecided=%d wall=%.1fs'
-          % (prop, tier, len(obligations), discharged, len(known), len(violations), len(undecided), wall))
+    print('%s tier=%s obligations=%d discharged=%d bounded=%d known=%d violations=%d undecided=%d wall=%.1fs'
+          % (prop, tier, len(proofobs), discharged, sum(1 for o in bounded if o['status'] == 'discharged'), len(known),
+             len(violations), len(undecided), wall))
     if rc == 0 and (undecided or stale):
         rc = 2
     return rc
